@@ -65,6 +65,10 @@ Rec == [fam |-> fam, opts |-> opts, m |-> m, n |-> n, o |-> o,
         base |-> BaseTerm(opts, m, n, o), nom |-> NomTerm(opts),
         ratio |-> Ratio(opts, n), exact |-> opts.exact,
         minsteps |-> MinNumSteps(m, n, o),
+        \* the literal reading of the property: the rule LogRule builds for the SAME (method, n, order) - it raises an order
+        \* below the method's minimal order - has this many weights, each consuming one step
+        ruleterms |-> IF m \in RL!RuleMethods THEN RL!NumTerms(m, n, o) ELSE 1,
+        rstep |-> IF m \in RL!RuleMethods THEN RL!RichardsonStep(m, n, o) ELSE 1,
         angles |-> IF fam = "spiral" THEN [j \in 1..Len(Exponents(opts, m, n, o)) |-> SpiralAngle(theta, Exponents(opts, m, n, o)[j])] ELSE << >>,
         theta |-> theta]
 Emit == EmitOn => PrintT(<<"@@", ToJson(Rec)>>)
